@@ -45,15 +45,15 @@ def label (sh : Sh) (pc : Pc) (e : Env) : Label :=
   | .w3park b _, .abort | .w3park b _, .cancel => { kind := "blk", obj := "tp", inst := bl b, op := "park_return", res := .num 0 }
   | .w3park b _, _ => { kind := "blk", obj := "tp", inst := bl b, op := "park_return", res := .num 1 }
   | .w5load b _, _ | .w7load b _, _ =>
-      { obj := "sync.blocking.unparked", inst := bl b, op := "load", res := .num (b2i (sh.unparked b)), ord := "Acquire" }
-  | .w6set b _, _ => { obj := "sync.blocking.release", inst := bl b, op := "store", a1 := .num 1, ord := "Release" }
+      { obj := "sync.blocking.unparked", inst := bl b, op := "load", res := .num (b2i (sh.unparked b)), ord := "SeqCst" }
+  | .w6set b _, _ => { obj := "sync.blocking.release", inst := bl b, op := "store", a1 := .num 1, ord := "SeqCst" }
   | .w8swap b _, _ | .n3swap b _, _ =>
-      { obj := "sync.blocking.release", inst := bl b, op := "swap", a1 := .num 0, res := .num (b2i (sh.release b)), ord := "Acquire" }
+      { obj := "sync.blocking.release", inst := bl b, op := "swap", a1 := .num 0, res := .num (b2i (sh.release b)), ord := "SeqCst" }
   | .wdone r, _ => { kind := "ret", op := "cv.wait", a1 := .num (b2i r) }
   | .n0pop _, _ | .a0pop _, _ =>
       { obj := "sync.condvar.to_wake", inst := cvI, op := "q.pop", res := match sh.q with | [] => .num (-1) | w :: _ => bid w }
   | .n1unpark w _, _ | .a1unpark w _, _ => { kind := "blk", obj := "tp", inst := bl w, op := "unpark" }
-  | .n2store w _, _ | .a2store w _, _ => { obj := "sync.blocking.unparked", inst := bl w, op := "store", a1 := .num 1, ord := "Release" }
+  | .n2store w _, _ | .a2store w _, _ => { obj := "sync.blocking.unparked", inst := bl w, op := "store", a1 := .num 1, ord := "SeqCst" }
 
 def pcName : Pc → String
   | .idle => "idle" | .held => "held" | .w1push .. => "w1push" | .w2unlock .. => "w2unlock" | .w3park .. => "w3park"
